@@ -60,6 +60,10 @@ def run(sid, props, tier="quick"):
     shutil.copy(os.path.join(REPO, "Cargo.lock"), os.path.join(wt, "Cargo.lock"))
     a = sh("git -C %s apply %s/patch.diff" % (wt, sd))
     out = {}
+    # the evidence files must come from runs against /repo itself: keep them aside while checking a changed tree
+    ev, keep = os.path.join(ROOT, "evidence"), "/tmp/seedrun_evidence_%s" % sid
+    shutil.rmtree(keep, ignore_errors=True)
+    shutil.copytree(ev, keep)
     try:
         if a.returncode != 0:
             print(a.stdout); return {"apply": False}
@@ -72,6 +76,9 @@ def run(sid, props, tier="quick"):
     finally:
         sh("git -C %s worktree remove --force %s" % (REPO, wt))
         shutil.rmtree(wt, ignore_errors=True)
+        shutil.rmtree(ev, ignore_errors=True)
+        shutil.copytree(keep, ev)
+        shutil.rmtree(keep, ignore_errors=True)
         sh("cd %s/harness && sed -i 's#path = \"[^\"]*/regexml\"#path = \"/repo/regexml\"#' Cargo.toml" % ROOT)
     return out
 
